@@ -207,7 +207,7 @@ end trivial
 /-! ### stringing the rows into the chain: any solution of the assembled system *is* the textbook -/
 section chain
 open Smrt.Dort
-variable (S : DStack ℝ) (N : Nat) (κ rt rb tu td : Nat → Nat → ℝ)
+variable (S : DStack ℝ) (Nw : Nat → Nat) (κ rt rb tu td : Nat → Nat → ℝ)
 
 /-- the scalar layer seen by stream/polarisation `i` in layer `l` -/
 noncomputable def mk (i l : Nat) : SLayer ℝ :=
@@ -218,20 +218,20 @@ noncomputable def chainN (i : Nat) : Nat → Nat → List (SLayer ℝ)
   | _, 0 => []
   | k, m + 1 => mk S κ rt rb tu td i k :: chainN i (k + 1) m
 
-/-- the stack is entirely non-scattering with specular interfaces and as many streams in every layer (no total reflection) -/
+/-- the stack is entirely non-scattering with specular interfaces; layer `l` has `Nw l = n_l · npol` stream-polarisations (the
+    numbers may differ from layer to layer: the more refringent a layer, the more streams it has, the extra ones being totally
+    reflected at its boundaries) -/
 structure TrivialStack : Prop where
   passive : S.passive = true
   mode0 : S.mode0 = true
   sub : S.hasSubTemp = true
-  npos : 0 < N
-  width : ∀ l, l < S.L → (S.lay l).n * S.npol = N
-  lay : ∀ l, l < S.L → TrivialLayer (S.lay l) N (κ l) (rt l) (rb l) (tu l) (td l)
+  width : ∀ l, l < S.L → (S.lay l).n * S.npol = Nw l
+  lay : ∀ l, l < S.L → TrivialLayer (S.lay l) (Nw l) (κ l) (rt l) (rb l) (tu l) (td l)
 
-variable {S N κ rt rb tu td}
+variable {S Nw κ rt rb tu td}
 
 theorem sum_delta (M i : Nat) (hi : i < M) (f : Nat → ℝ) :
     sumN M (fun k => (if k = i then (1 : ℝ) else 0) * f k) = f i := by
-  have := sum_two M i i hi hi
   rw [sumN_eq_sum]
   rw [Finset.sum_eq_single i]
   · simp
@@ -240,66 +240,72 @@ theorem sum_delta (M i : Nat) (hi : i < M) (f : Nat → ℝ) :
 
 /-- the four intensities of layer `l` for stream `i`, column `v`, from the unknowns -/
 noncomputable def ubOf (S : DStack ℝ) (x : Nat → Nat → Nat → ℝ) (i v l : Nat) : ℝ := x l i v + tempOf S l
-noncomputable def dtOf (S : DStack ℝ) (N : Nat) (x : Nat → Nat → Nat → ℝ) (i v l : Nat) : ℝ := x l (N + i) v + tempOf S l
+noncomputable def dtOf (S : DStack ℝ) (Nw : Nat → Nat) (x : Nat → Nat → Nat → ℝ) (i v l : Nat) : ℝ := x l (Nw l + i) v + tempOf S l
 noncomputable def utOf (S : DStack ℝ) (κ : Nat → Nat → ℝ) (x : Nat → Nat → Nat → ℝ) (i v l : Nat) : ℝ :=
   Real.exp (-(κ l i) * (S.lay l).d) * x l i v + tempOf S l
-noncomputable def dbOf (S : DStack ℝ) (N : Nat) (κ : Nat → Nat → ℝ) (x : Nat → Nat → Nat → ℝ) (i v l : Nat) : ℝ :=
-  Real.exp (-(κ l i) * (S.lay l).d) * x l (N + i) v + tempOf S l
+noncomputable def dbOf (S : DStack ℝ) (Nw : Nat → Nat) (κ : Nat → Nat → ℝ) (x : Nat → Nat → Nat → ℝ) (i v l : Nat) : ℝ :=
+  Real.exp (-(κ l i) * (S.lay l).d) * x l (Nw l + i) v + tempOf S l
 
 theorem layerEq_of (x : Nat → Nat → Nat → ℝ) (i v l : Nat) :
-    LayerEq (mk S κ rt rb tu td i l) (utOf S κ x i v l) (dtOf S N x i v l) (ubOf S x i v l) (dbOf S N κ x i v l) := by
+    LayerEq (mk S κ rt rb tu td i l) (utOf S κ x i v l) (dtOf S Nw x i v l) (ubOf S x i v l) (dbOf S Nw κ x i v l) := by
   simp only [LayerEq, mk, utOf, dtOf, ubOf, dbOf]
   constructor <;> ring
 
-theorem commonRows_triv (h : TrivialStack S N κ rt rb tu td) (T : Nat → ℝ) (src tgt : Nat) (ht : tgt * S.npol = N) :
-    commonRows S (.diag ⟨N, T⟩) src tgt = N := by
-  simp [commonRows, cvRows, ht]
+/-- row `i` is among the rows kept of a coupling block as soon as the stream exists on both sides -/
+theorem lt_commonRows (S : DStack ℝ) (Ns : Nat) (T : Nat → ℝ) (src tgt Nt i : Nat) (ht : tgt * S.npol = Nt) (h1 : i < Ns) (h2 : i < Nt) :
+    i < commonRows S (.diag ⟨Ns, T⟩) src tgt := by
+  simp only [commonRows, cvRows, ht]; omega
 
 /-- bottom rows of the last layer: the substrate condition -/
-theorem bottom_condition (h : TrivialStack S N κ rt rb tu td) (x : Nat → Nat → Nat → ℝ) (hs : Solves S x)
-    (i v : Nat) (hi : i < N) (l : Nat) (hl : l + 1 = S.L) :
-    ubOf S x i v l = rb l i * dbOf S N κ x i v l + td l i * S.tsub := by
+theorem bottom_condition (h : TrivialStack S Nw κ rt rb tu td) (x : Nat → Nat → Nat → ℝ) (hs : Solves S x)
+    (i v : Nat) (hi : ∀ l, l < S.L → i < Nw l) (l : Nat) (hl : l + 1 = S.L) :
+    ubOf S x i v l = rb l i * dbOf S Nw κ x i v l + td l i * S.tsub := by
   have hl' : l < S.L := by omega
   have hw := h.width l hl'
-  have hb := (hs l hl' i (by rw [hw]; exact hi) v).2
-  have tr := (trivial_rows (S.lay l) N (κ l) (rt l) (rb l) (tu l) (td l) (h.lay l hl') (fun j => x l j v) i hi).2.1
+  have hil := hi l hl'
+  have hb := (hs l hl' i (by rw [hw]; exact hil) v).2
+  have tr := (trivial_rows (S.lay l) (Nw l) (κ l) (rt l) (rb l) (tu l) (td l) (h.lay l hl') (fun j => x l j v) i hil).2.1
   have hnot : ¬ (l + 1 < S.L) := by omega
+  have hc := lt_commonRows S (Nw l) (td l) (Nw l) (S.lay l).n (Nw l) i hw hil hil
   simp only [lhsBot, rhsBot, hw, hnot, if_false, h.passive, h.mode0, h.sub, Bool.and_self, if_true, (h.lay l hl').rbot,
-    (h.lay l hl').tbot, CV.muleye, commonRows_triv h (td l) N (S.lay l).n hw, hi] at hb
+    (h.lay l hl').tbot, CV.muleye, hc] at hb
   rw [tr] at hb
   simp only [ubOf, dbOf]
   linear_combination hb
 
 /-- bottom rows of layer `l` and top rows of layer `l+1`: the interface conditions -/
-theorem interface_conditions (h : TrivialStack S N κ rt rb tu td) (x : Nat → Nat → Nat → ℝ) (hs : Solves S x)
-    (i v : Nat) (hi : i < N) (l : Nat) (hl : l + 1 < S.L) :
-    dtOf S N x i v (l + 1) = rt (l + 1) i * utOf S κ x i v (l + 1) + td l i * dbOf S N κ x i v l ∧
-    ubOf S x i v l = rb l i * dbOf S N κ x i v l + tu (l + 1) i * utOf S κ x i v (l + 1) := by
+theorem interface_conditions (h : TrivialStack S Nw κ rt rb tu td) (x : Nat → Nat → Nat → ℝ) (hs : Solves S x)
+    (i v : Nat) (hi : ∀ l, l < S.L → i < Nw l) (l : Nat) (hl : l + 1 < S.L) :
+    dtOf S Nw x i v (l + 1) = rt (l + 1) i * utOf S κ x i v (l + 1) + td l i * dbOf S Nw κ x i v l ∧
+    ubOf S x i v l = rb l i * dbOf S Nw κ x i v l + tu (l + 1) i * utOf S κ x i v (l + 1) := by
   have hl' : l < S.L := by omega
   have hw := h.width l hl'
   have hw1 := h.width (l + 1) hl
-  have hb := (hs l hl' i (by rw [hw]; exact hi) v).2
-  have ht := (hs (l + 1) hl i (by rw [hw1]; exact hi) v).1
-  have tr := trivial_rows (S.lay l) N (κ l) (rt l) (rb l) (tu l) (td l) (h.lay l hl') (fun j => x l j v) i hi
-  have tr1 := trivial_rows (S.lay (l + 1)) N (κ (l + 1)) (rt (l + 1)) (rb (l + 1)) (tu (l + 1)) (td (l + 1)) (h.lay (l + 1) hl)
-    (fun j => x (l + 1) j v) i hi
+  have hil := hi l hl'
+  have hil1 := hi (l + 1) hl
+  have hb := (hs l hl' i (by rw [hw]; exact hil) v).2
+  have ht := (hs (l + 1) hl i (by rw [hw1]; exact hil1) v).1
+  have tr := trivial_rows (S.lay l) (Nw l) (κ l) (rt l) (rb l) (tu l) (td l) (h.lay l hl') (fun j => x l j v) i hil
+  have tr1 := trivial_rows (S.lay (l + 1)) (Nw (l + 1)) (κ (l + 1)) (rt (l + 1)) (rb (l + 1)) (tu (l + 1)) (td (l + 1)) (h.lay (l + 1) hl)
+    (fun j => x (l + 1) j v) i hil1
+  have hcd := lt_commonRows S (Nw l) (td l) (Nw l) (S.lay (l + 1)).n (Nw (l + 1)) i hw1 hil hil1
+  have hcu := lt_commonRows S (Nw (l + 1)) (tu (l + 1)) (Nw (l + 1)) (S.lay l).n (Nw l) i hw hil1 hil
   constructor
   · simp only [lhsTop, rhsTop, hw, hw1, Nat.succ_ne_zero, Nat.add_sub_cancel, Nat.succ_pos, if_false, if_true, h.passive, h.mode0,
-      Bool.and_self, (h.lay (l + 1) hl).rtop, (h.lay l hl').tbot, CV.muleye,
-      commonRows_triv h (td l) N (S.lay (l + 1)).n hw1, hi] at ht
+      Bool.and_self, (h.lay (l + 1) hl).rtop, (h.lay l hl').tbot, CV.muleye, hcd] at ht
     rw [tr1.1, tr.2.2.1] at ht
     simp only [dtOf, utOf, dbOf]
     linear_combination ht
   · simp only [lhsBot, rhsBot, hw, hw1, hl, if_true, h.passive, h.mode0, Bool.and_self, (h.lay l hl').rbot,
-      (h.lay (l + 1) hl).ttop, CV.muleye, commonRows_triv h (tu (l + 1)) N (S.lay l).n hw, hi] at hb
+      (h.lay (l + 1) hl).ttop, CV.muleye, hcu] at hb
     rw [tr.2.1, tr1.2.2.2] at hb
     simp only [ubOf, utOf, dbOf]
     linear_combination hb
 
 /-- every half-stack of the solved system satisfies the incoherent boundary conditions -/
-theorem consistent_of_solves (h : TrivialStack S N κ rt rb tu td) (x : Nat → Nat → Nat → ℝ) (hs : Solves S x)
-    (i v : Nat) (hi : i < N) (m k : Nat) (hk : k + m + 1 = S.L) :
-    Consistent S.tsub (chainN S κ rt rb tu td i k (m + 1)) (ubOf S x i v k) (dbOf S N κ x i v k) := by
+theorem consistent_of_solves (h : TrivialStack S Nw κ rt rb tu td) (x : Nat → Nat → Nat → ℝ) (hs : Solves S x)
+    (i v : Nat) (hi : ∀ l, l < S.L → i < Nw l) (m k : Nat) (hk : k + m + 1 = S.L) :
+    Consistent S.tsub (chainN S κ rt rb tu td i k (m + 1)) (ubOf S x i v k) (dbOf S Nw κ x i v k) := by
   induction m generalizing k with
   | zero =>
     simp only [chainN, Consistent, mk]
@@ -308,42 +314,45 @@ theorem consistent_of_solves (h : TrivialStack S N κ rt rb tu td) (x : Nat → 
     have hrec := ih (k + 1) (by omega)
     have ic := interface_conditions h x hs i v hi k (by omega)
     simp only [chainN] at hrec ⊢
-    refine ⟨utOf S κ x i v (k + 1), dtOf S N x i v (k + 1), ubOf S x i v (k + 1), dbOf S N κ x i v (k + 1), hrec,
+    refine ⟨utOf S κ x i v (k + 1), dtOf S Nw x i v (k + 1), ubOf S x i v (k + 1), dbOf S Nw κ x i v (k + 1), hrec,
       layerEq_of x i v (k + 1), ?_, ?_⟩
     · simpa [mk] using ic.1
     · simpa [mk] using ic.2
 
 /-- **stack_is_textbook**: for every non-scattering stack with specular interfaces (any number of layers, thicknesses,
-    temperatures, coefficients, substrate and sky), *any* solution of the system `dort_modem_banded` assembles gives, at every
-    (stream, polarisation) `i`, an emerging intensity equal to the textbook closed form -/
-theorem stack_is_textbook (h : TrivialStack S N κ rt rb tu td) (x : Nat → Nat → Nat → ℝ) (hs : Solves S x)
-    (i v : Nat) (hi : i < N) (m : Nat) (hL : m + 1 = S.L)
-    (tdAir rAir : Nat → ℝ) (hta : S.tbotAir = .diag ⟨N, tdAir⟩) (hra : S.rbotAir = .diag ⟨N, rAir⟩) (hnair : S.nAir * S.npol = N)
+    temperatures, coefficients, substrate and sky, any number of streams per layer), *any* solution of the system
+    `dort_modem_banded` assembles gives, at every (stream, polarisation) `i` that exists in every layer - in particular at every
+    air stream - an emerging intensity equal to the textbook closed form -/
+theorem stack_is_textbook (h : TrivialStack S Nw κ rt rb tu td) (x : Nat → Nat → Nat → ℝ) (hs : Solves S x)
+    (i v : Nat) (hi : ∀ l, l < S.L → i < Nw l) (m : Nat) (hL : m + 1 = S.L)
+    (Na : Nat) (hia : i < Na) (tdAir rAir : Nat → ℝ) (hta : S.tbotAir = .diag ⟨Na, tdAir⟩) (hra : S.rbotAir = .diag ⟨Na, rAir⟩)
     (hd : DenOk S.tsub (chainN S κ rt rb tu td i 0 (m + 1)))
     (hden : 1 - rt 0 i * (throughLayer (mk S κ rt rb tu td i 0) (bottomOf S.tsub (chainN S κ rt rb tu td i 0 (m + 1))).1
       (bottomOf S.tsub (chainN S κ rt rb tu td i 0 (m + 1))).2).1 ≠ 0) :
     emergingB S x i v = brightness S.tsub (S.idown.f i v) (rAir i) (tdAir i) (chainN S κ rt rb tu td i 0 (m + 1)) := by
   have h0 : 0 < S.L := by omega
   have hw := h.width 0 h0
+  have hi0 := hi 0 h0
   have hc := consistent_of_solves h x hs i v hi m 0 (by omega)
-  have tr := trivial_rows (S.lay 0) N (κ 0) (rt 0) (rb 0) (tu 0) (td 0) (h.lay 0 h0) (fun j => x 0 j v) i hi
-  have ht := (hs 0 h0 i (by rw [hw]; exact hi) v).1
+  have tr := trivial_rows (S.lay 0) (Nw 0) (κ 0) (rt 0) (rb 0) (tu 0) (td 0) (h.lay 0 h0) (fun j => x 0 j v) i hi0
+  have ht := (hs 0 h0 i (by rw [hw]; exact hi0) v).1
+  have hca := lt_commonRows S Na tdAir (S.nAir * S.npol) (S.lay 0).n (Nw 0) i hw hia hi0
   simp only [lhsTop, rhsTop, hw, Nat.lt_irrefl, if_false, if_true, h.passive, h.mode0, Bool.and_self, (h.lay 0 h0).rtop, CV.muleye,
-    hta, commonRows_triv h tdAir (S.nAir * S.npol) (S.lay 0).n hw, hi, cvMulMat] at ht
+    hta, hca, cvMulMat] at ht
   rw [tr.1] at ht
   simp only [chainN] at hc hd hden ⊢
   apply textbook_solves_bc S.tsub (S.idown.f i v) (rAir i) (tdAir i) (mk S κ rt rb tu td i 0) (chainN S κ rt rb tu td i 1 m)
-    (utOf S κ x i v 0) (dtOf S N x i v 0) (ubOf S x i v 0) (dbOf S N κ x i v 0) _ hc hd (layerEq_of x i v 0)
+    (utOf S κ x i v 0) (dtOf S Nw x i v 0) (ubOf S x i v 0) (dbOf S Nw κ x i v 0) _ hc hd (layerEq_of x i v 0)
   · simp only [mk, dtOf, utOf]
     linear_combination ht
   · -- the emerging intensity
     have tt_i : transt (S.lay 0) i = Real.exp (-(κ 0 i) * (S.lay 0).d) := by
-      simp only [transt, (h.lay 0 h0).betaUp i hi, (h.lay 0 h0).κpos i hi, if_true, transc_exp_real]
+      simp only [transt, (h.lay 0 h0).betaUp i hi0, (h.lay 0 h0).κpos i hi0, if_true, transc_exp_real]
     have hi1 : i1up S (x 0) i v = utOf S κ x i v 0 := by
       simp only [i1up, hw, h.passive, h.mode0, Bool.and_self, if_true, utOf, (h.lay 0 h0).eu]
       have e : ∀ k, (if k = i then (1 : ℝ) else 0) * transt (S.lay 0) k * x 0 k v
           = (if k = i then (1 : ℝ) else 0) * (transt (S.lay 0) k * x 0 k v) := fun k => by ring
-      rw [sumN_congrFun e, sum_delta (2 * N) i (by omega), tt_i]
+      rw [sumN_congrFun e, sum_delta (2 * Nw 0) i (by omega), tt_i]
     simp only [emergingB, emerging, hra, (h.lay 0 h0).ttop, cvMulMat, hi1, mk]
     ring
   · simpa [mk] using hden
@@ -709,14 +718,14 @@ example : (20 : ℝ) ≤ brightness 270 20 (1 - 0.9) 0.9 [⟨0.5, 260, 0.1, 0.9,
 
 section chainBetween
 open Smrt.Dort
-variable {S : DStack ℝ} {N : Nat} {κ rt rb tu td : Nat → Nat → ℝ}
+variable {S : DStack ℝ} {Nw : Nat → Nat} {κ rt rb tu td : Nat → Nat → ℝ}
 
 /-- **stack_max_principle**: for a non-scattering stack with loss-free reciprocal specular interfaces and physical coefficients, every
     solution of the system `dort_modem_banded` assembles gives, at every stream and polarisation, an emerging intensity between the
     coldest and the warmest of the sources (layers, substrate, incident sky) - the geometric series converge by themselves -/
-theorem stack_max_principle (h : TrivialStack S N κ rt rb tu td) (x : Nat → Nat → Nat → ℝ) (hs : Solves S x)
-    (i v : Nat) (hi : i < N) (n : Nat) (hL : n + 1 = S.L)
-    (tdAir rAir : Nat → ℝ) (hta : S.tbotAir = .diag ⟨N, tdAir⟩) (hra : S.rbotAir = .diag ⟨N, rAir⟩) (hnair : S.nAir * S.npol = N)
+theorem stack_max_principle (h : TrivialStack S Nw κ rt rb tu td) (x : Nat → Nat → Nat → ℝ) (hs : Solves S x)
+    (i v : Nat) (hi : ∀ l, l < S.L → i < Nw l) (n : Nat) (hL : n + 1 = S.L)
+    (Na : Nat) (hia : i < Na) (tdAir rAir : Nat → ℝ) (hta : S.tbotAir = .diag ⟨Na, tdAir⟩) (hra : S.rbotAir = .diag ⟨Na, rAir⟩)
     (m M : ℝ) (hm0 : 0 ≤ m) (hsub : m ≤ S.tsub ∧ S.tsub ≤ M) (hsky : m ≤ S.idown.f i v ∧ S.idown.f i v ≤ M)
     (hg : ∀ ly ∈ chainN S κ rt rb tu td i 0 (n + 1), Good ly)
     (hT : ∀ ly ∈ chainN S κ rt rb tu td i 0 (n + 1), m ≤ ly.temp ∧ ly.temp ≤ M)
@@ -729,7 +738,7 @@ theorem stack_max_principle (h : TrivialStack S N κ rt rb tu td) (x : Nat → N
   obtain ⟨hG0, hG1, _⟩ := bottomOf_nonneg S.tsub h0 (chainN S κ rt rb tu td i 0 (n + 1)) (by simp [chainN]) hg
   have hden := ne_of_gt (den_pos_of_good (mk S κ rt rb tu td i 0) _ (bottomOf S.tsub (chainN S κ rt rb tu td i 0 (n + 1))).2
     (hg _ (by simp [chainN])) hG0 hG1)
-  have e := stack_is_textbook h x hs i v hi n hL tdAir rAir hta hra hnair hd (by simpa [mk] using hden)
+  have e := stack_is_textbook h x hs i v hi n hL Na hia tdAir rAir hta hra hd (by simpa [mk] using hden)
   rw [e]
   simp only [chainN] at hg hT hl hr ⊢
   exact brightness_between S.tsub (S.idown.f i v) (rAir i) (tdAir i) m M hm0 _ _ hsub hsky hg hT hl hr hair (by simpa [mk] using hrecip)
